@@ -8,6 +8,7 @@ Template directives (lines starting with `//%%`):
   //%% @pub                             make the item (and struct fields) pub
   //%% @attr <text>                     attribute line(s) put in front of the item
   //%% @rewrite <n> /<regex>/ => <repl> declared rewrite; must match exactly n times in the item text
+  //%%                                  (`?n`: at most n times -- for annotation-only rewrites)
   //%% @spec                            following raw lines = requires/ensures/decreases clauses
   //%% @entry                           following raw lines = proof block inserted as first statement
   //%% @loop <k> /<regex>/              following raw lines = invariants for the k-th loop (1-based,
@@ -285,7 +286,7 @@ class Generated:
         return '\n'.join(self.lines) + '\n'
 
 
-RW_RE = re.compile(r'^@rewrite\s+(\d+)\s+/(.*)/\s+=>\s?(.*)$')
+RW_RE = re.compile(r'^@rewrite\s+(\??\d+)\s+/(.*)/\s+=>\s?(.*)$')
 LOOP_RE = re.compile(r'^@loop\s+(\d+)\s+/(.*)/\s*$')
 
 
@@ -349,7 +350,7 @@ def parse_template(path, assumed=False, root=None, includes=None):
                 m = RW_RE.match(d)
                 if not m:
                     raise TemplateError('%s:%d bad @rewrite' % (path, i0))
-                cur.rewrites.append((int(m.group(1)), m.group(2), m.group(3)))
+                cur.rewrites.append((m.group(1), m.group(2), m.group(3)))
             elif d == '@spec':
                 section = cur.spec
             elif d == '@entry':
@@ -469,8 +470,10 @@ def generate(template_path, repo_root, unit_name, canary=False):
         # declared rewrites, applied to the raw item text
         for n, rx, repl in b.rewrites:
             new, cnt = re.subn(rx, repl, item, flags=re.M | re.S)
-            if cnt != n:
-                raise AnchorLost('%s::%s rewrite /%s/ matched %d times, declared %d' % (b.file, b.name, rx, cnt, n))
+            # `?n` = at most n matches (an annotation-only rewrite whose target may legitimately be absent)
+            okcnt = (cnt <= int(n[1:])) if n.startswith('?') else (cnt == int(n))
+            if not okcnt:
+                raise AnchorLost('%s::%s rewrite /%s/ matched %d times, declared %s' % (b.file, b.name, rx, cnt, n))
             g.rewrites.append({'item': b.name, 'file': b.file, 'regex': rx, 'repl': repl, 'count': cnt})
             item = new
         mitem = mask(item)
